@@ -323,6 +323,123 @@ func matrixCmd(args []string) error {
 		done()
 		fmt.Printf("{\"c20\":%d}\n", sink.n)
 	}
+	if contains(*which, "c12") {
+		if err := adaptEvents(*outDir, *tier, rng); err != nil {
+			return err
+		}
+	}
+	return nil
+}
+
+func matRows(m matrix.Matrix3) [][]dy {
+	out := make([][]dy, 3)
+	for r := 0; r < 3; r++ {
+		out[r] = []dy{obsv(m[0][r]), obsv(m[1][r]), obsv(m[2][r])}
+	}
+	return out
+}
+
+type whitePt struct {
+	form    string // "xyz" | "xyy"
+	a, b, c float32
+}
+
+// json gives the white as the XYZ the library works with (for xyY whites: the
+// float32 result of ColorFromXYY, which is what the adaptation is built from).
+func (w whitePt) json() dy {
+	c := w.xyz()
+	return dy{"form": "xyz", "origin": w.form, "v": []dy{dyadic(float64(c.X)), dyadic(float64(c.Y)), dyadic(float64(c.Z))}}
+}
+func (w whitePt) xyz() ciexyz.Color {
+	if w.form == "xyz" {
+		return ciexyz.Color{X: w.a, Y: w.b, Z: w.c}
+	}
+	return ciexyz.ColorFromXYY(ciexyy.Color{X: w.a, Y: w.b, YY: w.c})
+}
+func (w whitePt) adaptTo(o whitePt) ciexyz.ChromaticAdaptation {
+	if w.form == "xyy" && o.form == "xyy" {
+		return ciexyz.AdaptBetweenXYYWhitePoints(ciexyy.Color{X: w.a, Y: w.b, YY: w.c}, ciexyy.Color{X: o.a, Y: o.b, YY: o.c})
+	}
+	return ciexyz.AdaptBetweenXYZWhitePoints(w.xyz(), o.xyz())
+}
+
+func adaptEvents(outDir, tier string, rng *rand.Rand) error {
+	sink, done, err := newSink(filepath.Join(outDir, "c12.ndjson"))
+	if err != nil {
+		return err
+	}
+	defer done()
+	ill := [][2]float64{{0.44757, 0.40745}, {0.34842, 0.35161}, {0.31006, 0.31616}, {0.34567, 0.35850}, {0.33242, 0.34743},
+		{0.31271, 0.32902}, {0.29902, 0.31485}, {1.0 / 3, 1.0 / 3}, {0.37208, 0.37529}, {0.31292, 0.32933}, {0.38052, 0.37713}}
+	var whites []whitePt
+	for _, i := range ill {
+		whites = append(whites, whitePt{"xyy", float32(i[0]), float32(i[1]), 1})
+	}
+	// the same illuminants given as XYZ (float32) to the XYZ constructor, and the package's own D50 / D65
+	for _, i := range ill[:6] {
+		c := ciexyz.ColorFromXYY(ciexyy.Color{X: float32(i[0]), Y: float32(i[1]), YY: 1})
+		whites = append(whites, whitePt{"xyz", c.X, c.Y, c.Z})
+	}
+	whites = append(whites, whitePt{"xyz", ciexyz.D50.X, ciexyz.D50.Y, ciexyz.D50.Z}, whitePt{"xyz", ciexyz.D65.X, ciexyz.D65.Y, ciexyz.D65.Z})
+	emitPair := func(a, b whitePt) {
+		ab, ba, aa := a.adaptTo(b), b.adaptTo(a), a.adaptTo(a)
+		ap := ab.Apply(a.xyz())
+		// the xyY constructor must give the adaptation of the XYZ constructor on the converted whites
+		viaXYZ := ciexyz.AdaptBetweenXYZWhitePoints(a.xyz(), b.xyz())
+		sink.put(dy{"kind": "adapt", "a": a.json(), "b": b.json(), "ab": matRows(matrix.Matrix3(ab)), "ba": matRows(matrix.Matrix3(ba)),
+			"aa": matRows(matrix.Matrix3(aa)), "applied": obs3(ap.X, ap.Y, ap.Z), "same_xyy": matrix.Matrix3(viaXYZ) == matrix.Matrix3(ab)})
+	}
+	for _, a := range whites {
+		for _, b := range whites {
+			emitPair(a, b)
+		}
+	}
+	// chromaticity grid over [0.2, 0.5]^2 (with a seeded luminance now and then)
+	g := 6
+	if tier == "thorough" {
+		g = 16
+	}
+	var grid []whitePt
+	for i := 0; i < g; i++ {
+		for j := 0; j < g; j++ {
+			yy := float32(1)
+			if (i+j)%5 == 0 {
+				yy = 0.5 + rng.Float32()
+			}
+			grid = append(grid, whitePt{"xyy", float32(0.2 + 0.3*float64(i)/float64(g-1)), float32(0.2 + 0.3*float64(j)/float64(g-1)), yy})
+		}
+	}
+	for _, a := range grid {
+		for _, b := range grid {
+			emitPair(a, b)
+		}
+	}
+	// xyY -> XYZ conversion of white points against the exact (x Y / y, Y, (1 - x - y) Y / y)
+	for _, w := range append(append([]whitePt{}, whites[:11]...), grid...) {
+		c := w.xyz()
+		sink.put(dy{"kind": "xyy2xyz", "xyy": dy{"form": "xyy", "v": []dy{dyadic(float64(w.a)), dyadic(float64(w.b)), dyadic(float64(w.c))}}, "o": obs3(c.X, c.Y, c.Z)})
+	}
+	// compositions over all triples of the 11 illuminants
+	for _, a := range whites[:11] {
+		for _, b := range whites[:11] {
+			for _, c := range whites[:11] {
+				sink.put(dy{"kind": "compose", "ab": matRows(matrix.Matrix3(a.adaptTo(b))), "bc": matRows(matrix.Matrix3(b.adaptTo(c))), "ac": matRows(matrix.Matrix3(a.adaptTo(c)))})
+			}
+		}
+	}
+	// Apply acts linearly on colours
+	na := 1500
+	if tier == "thorough" {
+		na = 60000
+	}
+	for i := 0; i < na; i++ {
+		a, b := whites[rng.Intn(len(whites))], whites[rng.Intn(len(whites))]
+		m := a.adaptTo(b)
+		v := [3]float32{float32(rng.Intn(3*1024+1))/1024 - 1, float32(rng.Intn(3*1024+1))/1024 - 1, float32(rng.Intn(3*1024+1))/1024 - 1}
+		o := m.Apply(ciexyz.Color{X: v[0], Y: v[1], Z: v[2]})
+		sink.put(dy{"kind": "apply", "m": matRows(matrix.Matrix3(m)), "v": []dy{obsv(float64(v[0])), obsv(float64(v[1])), obsv(float64(v[2]))}, "o": obs3(o.X, o.Y, o.Z)})
+	}
+	fmt.Printf("{\"c12\":%d}\n", sink.n)
 	return nil
 }
 
